@@ -95,8 +95,9 @@ def check_cells_record(chk, r, m, prop='C01', want=('vol', 'centroid', 'faces', 
                         break
                 if not found:
                     cands = [(fl(f.area), fl3(f.centroid)) for (f, fk) in ifaces if fk == key]
+                    onwall = ' gen-on-wall' if (mf.right is None and gen_on_wall(inp, c.idx)) else ''
                     chk.violation('impl-vs-model', 'face towards %s shift %s with exact area %.6g centroid %s is missing or wrong (implementation has %s), %s'
-                                  % (mf.right, mf.shift, float(mf.area2) ** 0.5, fl3(mf.centroid), cands, where), rp, key=r.family)
+                                  % (mf.right, mf.shift, float(mf.area2) ** 0.5, fl3(mf.centroid), cands, where), rp, key=r.family + onwall)
             for k, (f, fk) in enumerate(ifaces):
                 if k in used:
                     continue
@@ -104,7 +105,8 @@ def check_cells_record(chk, r, m, prop='C01', want=('vol', 'centroid', 'faces', 
                     chk.violation('impl-vs-model', 'non-finite face area, ' + where, rp, key=r.family)
                 elif f.area > tol.area or f.area < -tol.area:
                     # is there an exact face with this key at all (negligible ones are optional)
-                    chk.violation('impl-vs-model', 'spurious face towards %s shift %s with area %s, %s' % (fk[0], fk[1], fl(f.area), where), rp, key=r.family)
+                    onwall = ' gen-on-wall' if (fk[0] is None and gen_on_wall(inp, c.idx)) else ''
+                    chk.violation('impl-vs-model', 'spurious face towards %s shift %s with area %s, %s' % (fk[0], fk[1], fl(f.area), where), rp, key=r.family + onwall)
         if 'verts' in want:
             # Hausdorff distance between the two polytopes, each given by vertices and half spaces:
             # every implementation vertex satisfies every exact half space, every exact vertex every implementation half space
